@@ -27,7 +27,7 @@ FAMILIES = {
 # property -> families whose judges print verdicts for it
 PROPS = {
     # (the merge, links and reader judges also print C03/C04 verdicts; those families are run by their own properties)
-    "C03": ["tree", "clone"], "C04": ["tree", "clone"], "C05": ["values"], "C06": ["tree", "values", "card", "merge"],
+    "C03": ["tree", "clone"], "C04": ["tree", "clone"], "C05": ["values"], "C06": ["tree", "values", "card", "merge", "links"],
     "C09": ["card"],
     "C14": ["paths"],
     "C11": ["clone", "values"],
@@ -69,6 +69,10 @@ def run(pid, tier):
         tb += res.get("trusted_base", [])
         for k, v in res.get("extra", {}).items():
             cov["%s_%s" % (fam, k)] = v
+    from . import par
+    verdicts += par.HANG_VERDICTS
+    all_files += par.HANG_FILES
+    cov["calls_that_did_not_return"] = len(par.HANG_VERDICTS)
     nv, nk, summary = C.settle(pid, verdicts, all_files, tier)
     total = sum(cov["records"].values())
     if not samples:
